@@ -28,6 +28,7 @@ props! {
     "C04" => c04,
     "C05" => c05,
     "C06" => c06,
+    "C07" => c07,
     "C08" => c08,
     "C09" => c09,
     "C10" => c10,
@@ -37,6 +38,7 @@ props! {
     "C14" => c14,
     "C16" => c16,
     "C17" => c17,
+    "C19" => c19,
 }
 
 pub fn iso_space(_prop: &str, _mode: &str, _tier: Tier) -> Option<Box<dyn IsoSpace>> {
